@@ -70,10 +70,21 @@ Definition status_of (s : string) : status :=
   else if String.eqb s "err-base" then StErrBase else if String.eqb s "no-src" then StNoSrc
   else if String.eqb s "no-base" then StNoBase else StPanic.
 
+Definition is_fetch_op (i : term) : bool := String.eqb (gs (gn i 3)) "fetch".
+
 Definition run_C16 (i : term) : term :=
   let srcs := sources_of 0 0 (gl (gn i 0)) in
   let bases := sources_of 1 0 (gl (gn i 1)) in
   let o := grab_sources_and_bases tprof toy_combine chunk_size srcs bases (sched_of 0 (gn i 2)) (sched_of 1 (gn i 2)) in
+  if is_fetch_op i then
+    let '(st, p) := match toy_fetch_profiles o with
+                    | FoStatus st => (status_str st, None)
+                    | FoDiffErr => ("err-diff", None)
+                    | FoOk p => ("ok", Some p)
+                    end in
+    TL [TS st; of_otprof p; TL []; TZ 0; of_ss (g_err_src o); of_ss (g_err_base o);
+        (if String.eqb st "ok" then of_ss (g_tail o) else TL []); TL []]
+  else
   TL [TS (status_str (g_status o)); of_otprof (g_src o); of_otprof (g_base o); of_bool (g_save o);
       of_ss (g_err_src o); of_ss (g_err_base o); of_ss (g_tail o); TL []].
 
@@ -87,7 +98,7 @@ Definition eqv_C16 (i m o : term) : bool :=
   match m, o with
   | TL [TS st; ps; pb; sv; es; eb; tl; mu], TL [TS st'; ps'; pb'; sv'; es'; eb'; tl'; mu'] =>
       String.eqb st st' &&
-      (if String.eqb st "err-src" || String.eqb st "err-base" then true
+      (if String.eqb st "err-src" || String.eqb st "err-base" || String.eqb st "err-diff" then true
        else toy_opt_eqvb (otprof_of ps) (otprof_of ps') && toy_opt_eqvb (otprof_of pb) (otprof_of pb')
             && term_eqb sv sv' && term_eqb es es' && term_eqb eb eb' && term_eqb tl tl' && term_eqb mu mu')
   | _, _ => term_eqb m o
@@ -98,6 +109,9 @@ Definition spec_C16 (i o : term) : bool :=
   let bases := sources_of 1 0 (gl (gn i 1)) in
   match o with
   | TL [TS st; ps; pb; _; es; eb; _; _] =>
+      if is_fetch_op i
+      then spec_fetch_check srcs bases (String.eqb st "ok") (status_of st) (otprof_of ps) (gss es) (gss eb)
+      else
       (String.eqb st "ok" || String.eqb st "err-src" || String.eqb st "err-base" || String.eqb st "no-src" || String.eqb st "no-base")
       && spec_check srcs bases (status_of st) (otprof_of ps) (otprof_of pb) (gss es) (gss eb)
   | _ => false   (* panic or malformed observable *)
